@@ -3,6 +3,7 @@ use emmylua_parser::LuaSyntaxToken;
 use lsp_types::{SemanticToken, SemanticTokenModifier, SemanticTokenType};
 use rowan::{TextRange, TextSize};
 use std::{
+    cmp::Reverse,
     collections::HashSet,
     ops::{BitOr, BitOrAssign},
     vec::Vec,
@@ -221,6 +222,57 @@ struct BasicSemanticTokenData {
     modifiers: u32,
 }
 
+/// Emit the visible parts of the open tokens (innermost last) up to `limit`, or completely when
+/// there is no limit. A token that is still open at the limit stays on the stack.
+fn close_open_tokens(
+    open: &mut Vec<BasicSemanticTokenData>,
+    pos: &mut u32,
+    limit: Option<u32>,
+    out: &mut Vec<BasicSemanticTokenData>,
+) {
+    while let Some(top) = open.last() {
+        let end = top.col.saturating_add(top.length);
+        let still_open = limit.is_some_and(|limit| limit < end);
+        let stop = if still_open { limit.unwrap_or(end) } else { end };
+        let start = top.col.max(*pos);
+        if stop > start {
+            out.push(BasicSemanticTokenData {
+                line: top.line,
+                col: start,
+                length: stop - start,
+                typ: top.typ,
+                modifiers: top.modifiers,
+            });
+            *pos = stop;
+        }
+        if still_open {
+            break;
+        }
+        open.pop();
+    }
+}
+
+/// LSP semantic tokens must not overlap. Where a token starts inside an earlier one, the later
+/// (inner) token wins on its span and the earlier one is split around it. Empty tokens are dropped.
+/// The input must be sorted by (line, col).
+fn flatten_overlaps(sorted: Vec<BasicSemanticTokenData>) -> Vec<BasicSemanticTokenData> {
+    let mut out = Vec::with_capacity(sorted.len());
+    let mut open: Vec<BasicSemanticTokenData> = Vec::new();
+    let mut line = 0;
+    let mut pos = 0;
+    for token in sorted {
+        if token.line != line {
+            close_open_tokens(&mut open, &mut pos, None, &mut out);
+            line = token.line;
+            pos = 0;
+        }
+        close_open_tokens(&mut open, &mut pos, Some(token.col), &mut out);
+        open.push(token);
+    }
+    close_open_tokens(&mut open, &mut pos, None, &mut out);
+    out
+}
+
 #[derive(Debug)]
 enum SemanticTokenData {
     Basic(BasicSemanticTokenData),
@@ -247,6 +299,17 @@ impl<'a> SemanticBuilder<'a> {
         }
     }
 
+    /// Length of a line in UTF-16 code units, without its line terminator.
+    fn line_length(&self, line: u32) -> u32 {
+        let Some(range) = self.document.get_line_range(line as usize) else {
+            return 0;
+        };
+        let text = self.document.get_text_slice(range);
+        let text = text.strip_suffix('\n').unwrap_or(text);
+        let text = text.strip_suffix('\r').unwrap_or(text);
+        text.encode_utf16().count() as u32
+    }
+
     fn push_data(&mut self, range: TextRange, typ: u32, modifiers: u32) {
         let position = range.start();
         if !self.seen_positions.insert(position) {
@@ -271,7 +334,7 @@ impl<'a> SemanticBuilder<'a> {
             multi_line_data.push(BasicSemanticTokenData {
                 line: start_line,
                 col: start_col,
-                length: 9999,
+                length: self.line_length(start_line).saturating_sub(start_col),
                 typ,
                 modifiers,
             });
@@ -280,7 +343,7 @@ impl<'a> SemanticBuilder<'a> {
                 multi_line_data.push(BasicSemanticTokenData {
                     line: i,
                     col: 0,
-                    length: 9999,
+                    length: self.line_length(i),
                     typ,
                     modifiers,
                 });
@@ -377,16 +440,16 @@ impl<'a> SemanticBuilder<'a> {
             }
         }
 
-        data.sort_unstable_by(|a, b| {
-            let line1 = a.line;
-            let line2 = b.line;
-            if line1 == line2 {
-                let character1 = a.col;
-                let character2 = b.col;
-                return character1.cmp(&character2);
-            }
-            line1.cmp(&line2)
+        data.sort_unstable_by_key(|token| {
+            (
+                token.line,
+                token.col,
+                Reverse(token.length),
+                token.typ,
+                token.modifiers,
+            )
         });
+        let data = flatten_overlaps(data);
 
         let mut result = Vec::with_capacity(data.len());
         let mut prev_line = 0;
